@@ -610,7 +610,13 @@ class Interp:
         out = Exits()
         seen, exits = set(), set()
         work = set(S)
+        rounds = 0
         while work - seen:
+            rounds += 1
+            if rounds > 200:
+                self.unrecognised.append(f"loop at {sc.func.relpath}:{getattr(node, 'lineno', 0)} does not reach a fixpoint "
+                                         f"(unbounded abstract state)")
+                break
             cur = work - seen
             seen |= cur
             cur = self._event("loophead", node, cur, sc)
@@ -663,18 +669,28 @@ class Interp:
 
     def s_With(self, st, S, sc):
         exits_to_run = []
-        for it in st.items:
-            S = self.expr(it.context_expr, S, sc)
-            t = sc.type_of(it.context_expr)
-            S = self._event("with_enter", it, S, sc)
-            if isinstance(t, Cls):
-                f = self.P.resolve(t, "__enter__")
-                if f is not None and self.client.should_inline(f, it, Ctx(self, sc)):
-                    S = self._run_callee(f, t, ("with",), None, S, sc)
-            if it.optional_vars is not None:
-                S = self._store(it.optional_vars, S, sc)
-            exits_to_run.append((it, t))
-        body = self.block(st.body, S, sc)
+        # an exception raised after __enter__ leaves through __exit__: intermediate states reach enclosing
+        # handlers only after the exit events (e.g. the lock is released)
+        saved_traces = self.traces
+        inner: Set = set()
+        try:
+            for it in st.items:
+                S = self.expr(it.context_expr, S, sc)
+                t = sc.type_of(it.context_expr)
+                self.traces = [inner]
+                S = self._event("with_enter", it, S, sc)
+                if isinstance(t, Cls):
+                    f = self.P.resolve(t, "__enter__")
+                    if f is not None and self.client.should_inline(f, it, Ctx(self, sc)):
+                        S = self._run_callee(f, t, ("with",), None, S, sc)
+                if it.optional_vars is not None:
+                    S = self._store(it.optional_vars, S, sc)
+                exits_to_run.append((it, t))
+            body = self.block(st.body, S, sc)
+        finally:
+            self.traces = saved_traces
+        if saved_traces and inner:
+            self._note(self._with_exit(exits_to_run, inner, sc))
         res = Exits()
         for name in ("normal", "brk", "cont", "ret"):
             cur = getattr(body, name)
